@@ -36,6 +36,16 @@ func num64(x interface{}) int64 {
 		return int64(f)
 	case float64:
 		return int64(v)
+	case int:
+		return int64(v)
+	case int64:
+		return v
+	case uint32:
+		return int64(v)
+	case uint64:
+		return int64(v)
+	case int32:
+		return int64(v)
 	case string:
 		var n int64
 		neg := false
